@@ -845,6 +845,9 @@ class Normalizer:
                             and not any(isinstance(a, ast.Starred) for a in n.args)):
                         return n
                     fn, seqs = n.args[0], n.args[1:]
+                    if isinstance(fn, ast.Name) and fn.id in ("list", "tuple", "set", "frozenset", "dict", "sorted") and \
+                            isinstance(seqs[0], ast.Call) and isinstance(seqs[0].func, ast.Name) and seqs[0].func.id == "zip":
+                        return n          # map(list, zip(*pairs)) is the unzip idiom: it has its own sequence-domain meaning (sa/terms.py)
 
                     def repeated(e):
                         if isinstance(e, ast.Call) and not e.keywords and len(e.args) == 1 and \
